@@ -1,4 +1,5 @@
 import WitnessVerif.Proofs.Frame
+import WitnessVerif.Proofs.BytesRun
 /-
 C04 — every checkpoint handed out is the log's text, validly cosigned, and fresh.
 -/
@@ -74,5 +75,40 @@ theorem C04_read_after_update (cfg : Cfg) (s : Store) (r : Req) (f : Faults)
     (h : (stepF cfg s r f).2.err = .none) :
     ∃ v, (stepF cfg s r f).2.ret = some v ∧ getCheckpoint (stepF cfg s r f).1 r.logID = some v :=
   stepF_accepted cfg s r f h
+
+end C04
+
+namespace C04
+open Wit
+
+/-- the note handed out has byte-identical text: the submitted bytes are `text ++ "\n" ++ sigs`, the
+    returned (= stored) bytes are `text ++ "\n" ++ sigs'`, and whoever opens the returned bytes, under
+    any verifier list, reads exactly `text` (reparse stability of `note.Sign` / `note.Open`) -/
+theorem C04_text_identical (cfg : Cfg) (env : Env) (id : Bytes) (old : Nat) (nextRaw : Bytes) (proof : List Bytes)
+    (h : (update cfg env id old nextRaw proof).err = .none) :
+    ∃ text sigs sigs' signed,
+      nextRaw = text ++ B.nl :: sigs ∧ (update cfg env id old nextRaw proof).ret = some signed ∧
+      signed = text ++ B.nl :: sigs' ∧
+      ∀ vs n', Note.open signed vs = .ok n' → n'.text = text := by
+  obtain ⟨l, next, nn, outs, signed, _, hparse, _, hsign, _, hret, _, _⟩ := update_accepted cfg env id old nextRaw proof h
+  obtain ⟨hopen, _, _, _⟩ := parse_spec l nextRaw next nn hparse
+  obtain ⟨hok, _, sigs, hmsg⟩ := Note.open_spec nextRaw [l.verifier] nn hopen
+  obtain ⟨sigs', hsigned, _⟩ := Note.sign_split nn outs signed hok hsign
+  exact ⟨nn.text, sigs, sigs', signed, hmsg, hret, hsigned,
+    fun vs n' ho => Note.open_sign_text nn outs signed hok hsign vs n' ho⟩
+
+/-- the stored checkpoint carries the log's valid signature: it parses again under the log's verifier
+    and origin, to the same checkpoint (size, root) that was accepted -/
+theorem C04_stored_reparses (cfg : Cfg) (env : Env) (id : Bytes) (old : Nat) (nextRaw : Bytes) (proof : List Bytes)
+    (h : (update cfg env id old nextRaw proof).err = .none) :
+    ∃ l next nn signed p' n', cfg.find id = some l ∧ parse l nextRaw = some (next, nn) ∧
+      (update cfg env id old nextRaw proof).set = some signed ∧ parse l signed = some (p', n') ∧ p' = next := by
+  obtain ⟨l, next, nn, outs, signed, hfind, hparse, _, hsign, hps, _, hset, _⟩ := update_accepted cfg env id old nextRaw proof h
+  cases hq : parse l signed with
+  | none => simp [hq] at hps
+  | some pq =>
+    obtain ⟨p', n'⟩ := pq
+    exact ⟨l, next, nn, signed, p', n', hfind, hparse, hset, hq,
+      (parse_sign_same l nextRaw next nn outs signed p' n' hparse hsign hq).1⟩
 
 end C04
